@@ -4,7 +4,8 @@ From Boltons Require Import Lib.Prelude Lib.C07_Str Spec.C07_Spec Gen.C07_Gen Mo
      Proofs.C07_StrLemmas Proofs.C07_Rds Proofs.C07_Resolve Proofs.C07_Parse Proofs.C07_Navigate
      Proofs.C07_Text Proofs.C07_RfcExamples Gen.C07_Src Proofs.C07_SrcEq Check.C07_Check
      Proofs.C07_Refine Proofs.C07_RoundTrip Proofs.C07_Unrooted Proofs.C07_Case
-     Proofs.C07_RefineUnrooted Proofs.C07_CaseAuth Proofs.C07_CaseRefine Proofs.C07_EmptyAuth.
+     Proofs.C07_RefineUnrooted Proofs.C07_CaseAuth Proofs.C07_CaseRefine Proofs.C07_EmptyAuth
+     Proofs.C07_CaseRoundTrip.
 Open Scope N_scope.
 Open Scope list_scope.
 
@@ -250,6 +251,20 @@ Example C07_refinement_any_base_text_ex :
   wf_base (or_dummy (url_of_text (codes "http://a:80/b/../c"))) /\
   to_text (or_dummy (url_of_text (codes "http://a:80/b/../c"))) = codes "http://a/b/../c".
 Proof. exact ex_default_port. Qed.
+
+(* ... and for a base text with mixed-case scheme / host *)
+Theorem C07_round_trip_base_mixed_case : forall b, wf_base_mc_text b -> url_of_text (to_text b) = Some b.
+Proof. exact base_round_trip_mc. Qed.
+Print Assumptions C07_round_trip_base_mixed_case.
+Theorem C07_refinement_mixed_case : forall b d1 d2 f1 f2 o0,
+  wf_base_mc_text b -> dest_text_ok d1 -> dest_text_ok d2 ->
+  exists o, c07_model (mkCase (to_text b) false (to_text d1) f1 (to_text d2) f2 o0) = Some o /\
+            c07_holds (mkCase (to_text b) false (to_text d1) f1 (to_text d2) f2 o) = true.
+Proof. exact model_on_texts_mixed_case. Qed.
+Print Assumptions C07_refinement_mixed_case.
+Example C07_refinement_mixed_case_ex :
+  wf_base_mc_text ex_mixed /\ u_host ex_mixed = codes "Example.COM".
+Proof. split; [exact ex_mixed_text_ok | vm_compute; reflexivity]. Qed.
 
 Example C07_refinement_ex :
   wf_base_text ex_base /\ dest_text_ok ex_ref1 /\ dest_text_ok ex_ref2 /\ dest_text_ok ex_abs /\
